@@ -318,6 +318,32 @@ def run(chk: common.Check):
                         found.append(("bonds-depend-on-pose:next-to-cutoff", f"{e1} and {e2} at offset {tuple(x / 1000.0 for x in off)} A (limit {lim[(e1, e2)] / 1000.0} A): bonded in one pose, "
                                       f"not in another (rotation #{ri}, shift {sh})", {"elements": [e1, e2], "offset_milli_angstrom": off, "rotation": rots[ri], "shift": sh}))
     chk.cov["bond_perception_poses"] = nslide
+    # the closest pair of two atom lists must not depend on the ORDER of the lists (the order of an atom's bond list, hence of a group's interaction
+    # atoms, follows the cell-list traversal, i.e. the pose): candidates whose squared distances differ by 1e-6 .. 9e-4 A^2, both list orders
+    import propka.calculations as _C
+    class _P:
+        def __init__(s_, x, y, z, tag):
+            s_.x, s_.y, s_.z, s_.tag = x, y, z, tag
+    for k_ in range(200 if chk.thorough else 60):
+        h_ = _P(round(rng.uniform(-20, 20), 3), round(rng.uniform(-20, 20), 3), round(rng.uniform(-20, 20), 3), "H")
+        d0 = rng.uniform(1.6, 3.4)
+        cands = []
+        for j_, extra in enumerate((0.0, rng.uniform(1e-6, 9e-4) / (2 * d0), rng.uniform(0.05, 0.6))):
+            u_ = [rng.gauss(0, 1) for _ in range(3)]
+            n_ = math.sqrt(sum(x * x for x in u_))
+            cands.append(_P(*(h_.x + (d0 + extra) * u_[0] / n_, h_.y + (d0 + extra) * u_[1] / n_, h_.z + (d0 + extra) * u_[2] / n_), f"O{j_}"))
+        exact = min(cands, key=lambda a_: (a_.x - h_.x) ** 2 + (a_.y - h_.y) ** 2 + (a_.z - h_.z) ** 2).tag
+        picks = set()
+        for order in (cands, cands[::-1], [cands[1], cands[0], cands[2]]):
+            a1, dist_, a2 = _C.get_smallest_distance([h_], order)
+            picks.add(a2.tag)
+            a2b, _d, a1b = _C.get_smallest_distance(order, [h_])
+            picks.add(a2b.tag)
+        nslide += 1
+        if picks != {exact}:
+            found.append(("closest-pair-depends-on-list-order", f"get_smallest_distance: the candidates {[(c_.tag, round(math.dist((c_.x, c_.y, c_.z), (h_.x, h_.y, h_.z)), 6)) for c_ in cands]} "
+                          f"give {sorted(picks)} depending on the order of the list; the closest is {exact}", {"candidates": [[c_.tag, c_.x, c_.y, c_.z] for c_ in cands], "reference_atom": [h_.x, h_.y, h_.z]}))
+            break
 
     # ---------------------------------------------------------------- (2) full runs
     def study(name, text, opts, tol, poses, kind):
@@ -379,6 +405,24 @@ def run(chk: common.Check):
     # a poorly resolved structure (side chains cut back to the group-defining atom): centres must still come from atoms, never from a default
     trunc, tdesc = structures.truncated_side_chains(small)
     study(f"3SGB-subset protein, truncated side chains ({', '.join(tdesc)}), hydrogens built", trunc, [], PKA_TOL_BUILT, poses(3 if chk.thorough else 1, 2, big=False), "built-hydrogens")
+    # distorted planar groups: the guanidinium carbon of every ARG pushed 0.35 A out of the plane of its nitrogens (the hydrogens on NH1 / NH2 are
+    # still built from the plane of the neighbour, in every pose)
+    def pyramidalise(text_, amount=0.35):
+        byres = {}
+        for l in structures.atom_lines(text_):
+            if l[17:20] == "ARG" and l[12:16].strip() in ("NE", "CZ", "NH1", "NH2"):
+                byres.setdefault((l[21], l[22:27]), {})[l[12:16].strip()] = [float(v) for v in structures.get_xyz(l)]
+        shift = {}
+        for k_, at_ in byres.items():
+            if len(at_) == 4:
+                a_, b_ = [at_["NH1"][i] - at_["NE"][i] for i in range(3)], [at_["NH2"][i] - at_["NE"][i] for i in range(3)]
+                nrm_ = [a_[1] * b_[2] - a_[2] * b_[1], a_[2] * b_[0] - a_[0] * b_[2], a_[0] * b_[1] - a_[1] * b_[0]]
+                n_ = math.sqrt(sum(x * x for x in nrm_))
+                shift[k_] = [round(at_["CZ"][i] + amount * nrm_[i] / n_, 3) for i in range(3)]
+        return structures.map_atoms(text_, lambda l: structures.set_xyz(l, *(Decimal(str(v)) for v in shift[(l[21], l[22:27])]))
+                                    if (l[17:20] == "ARG" and l[12:16].strip() == "CZ" and (l[21], l[22:27]) in shift) else l)
+    study("3SGB-subset protein, ARG guanidinium carbons 0.35 A out of plane, hydrogens built", pyramidalise(small), [], PKA_TOL_BUILT,
+          [(ri, (0, 0, 0)) for ri in (rng.sample(range(1, 24), 4) if not chk.thorough else range(1, 24, 2))], "built-hydrogens")
     # every coordinate axis of the deposited frame is mapped onto x, y and z once (rotations #8: x<-y.., #12: x<-z..): pair screens along one axis
     hpx_p = protein_only(structures.read("1HPX.pdb"))
     z_to_x = next(i for i, R in enumerate(rots) if R[0][2] != 0)     # new x = +-old z
